@@ -848,7 +848,7 @@ class Expander:
                     self.records.setdefault("degraded", []).append(f"{relpath}:{name}: directive `{d[:80]}` not applied ({ex})")
                 else:
                     raise
-        self.records["takes"].append({"kind": kind, "file": relpath, "name": name,
+        self.records["takes"].append({"kind": kind, "file": relpath, "name": name, "external": "external-body" in opts,
                                       "lines": [src.line_of(item.start), src.line_of(item.end)]})
         if kind == "method" and item.body_open is not None and "external-body" not in opts and "::" in name and " for " not in name:
             body = "".join(c.text for c in ed.chunks() if c.origin[0] == "repo")   # the repository's text after the recorded rewrites
